@@ -9,6 +9,7 @@ import (
 	"math/rand"
 	"sort"
 	"strings"
+	"time"
 
 	"gopkg.in/src-d/go-git.v4/plumbing"
 	"gopkg.in/src-d/go-git.v4/plumbing/object"
@@ -26,18 +27,28 @@ func init() {
 // parent -1-k is the k-th hash outside the analysed commit set.  Ranks[i] is the position of commit
 // i's hash in byte order (a permutation of 0..N-1): it drives every tie-break of the planner.
 // Order is the order of the commits in the slice given to the planner.
+//
+// Times[i] (optional; nil = every Committer.When is the zero time) is the committer timestamp of commit i in
+// seconds after TimeBase.  The planner must not depend on it: git does not guarantee that commit dates grow
+// along the ancestry (clock skew, rebases, imported histories).
 type Graph struct {
 	N     int
 	Edges [][2]int
 	Ranks []int
 	Order []int
+	Times []int
 }
+
+// TimeBase is the origin of Graph.Times.
+const TimeBase = 1500000000
 
 // Hash makes the hash whose byte (= hex string) order is the rank.
 func Hash(rank int) plumbing.Hash {
 	var h plumbing.Hash
-	h[0] = byte(rank >> 8)
-	h[1] = byte(rank)
+	h[0] = byte(rank >> 24)
+	h[1] = byte(rank >> 16)
+	h[2] = byte(rank >> 8)
+	h[3] = byte(rank)
 	h[19] = 1
 	return h
 }
@@ -70,6 +81,11 @@ func (g Graph) Commits(rev bool) ([]*object.Commit, map[plumbing.Hash]int) {
 	id := map[plumbing.Hash]int{}
 	for i := 0; i < g.N; i++ {
 		cs[i] = &object.Commit{Hash: Hash(g.Ranks[i])}
+		if len(g.Times) == g.N {
+			when := time.Unix(TimeBase+int64(g.Times[i]), 0)
+			cs[i].Committer.When = when
+			cs[i].Author.When = when
+		}
 		id[cs[i].Hash] = i
 	}
 	for _, e := range g.Edges {
@@ -96,7 +112,11 @@ func (g Graph) Fields() []Sx {
 	for i, e := range g.Edges {
 		es[i] = L(I(e[0]), I(e[1]))
 	}
-	return []Sx{T("n", I(g.N)), T("ranks", Ints(g.Ranks).List...), T("order", Ints(g.Order).List...), T("edges", es...)}
+	fs := []Sx{T("n", I(g.N)), T("ranks", Ints(g.Ranks).List...), T("order", Ints(g.Order).List...)}
+	if len(g.Times) == g.N {
+		fs = append(fs, T("times", Ints(g.Times).List...))
+	}
+	return append(fs, T("edges", es...))
 }
 
 // NonTrivial: some commit has two distinct parents inside the set.
@@ -135,6 +155,14 @@ func ParseGraph(cs Sx) Graph {
 				g.Edges = append(g.Edges, [2]int{c, p})
 			}
 		}
+	}
+	if f, ok := cs.Field("times"); ok {
+		for _, x := range f.Args() {
+			g.Times = append(g.Times, x.Int())
+		}
+	}
+	if len(g.Times) != g.N {
+		g.Times = nil
 	}
 	if len(g.Ranks) != g.N {
 		g.Ranks = Identity(g.N)
